@@ -1,6 +1,7 @@
 import Dbg.Lemmas.Assemble
 import Dbg.Lemmas.FilterSym
 import Dbg.Lemmas.NodeExts
+import Dbg.Lemmas.NoExts
 /-! # C01 — Compressed graph is a lossless partition of the input k-mer set
 
 Theorems about the model `Compress.compressKmersC` of `compress_kmers_with_hash` (the table is listed in the hash map's
@@ -99,6 +100,24 @@ theorem C01_from_reads (K : Nat) (hK : 4 ≤ K) (reads : List (Seq × Exts × Na
   have : (Filter.removeCensoredExts st (Filter.refTable K reads sm st)).map (·.key) = (Filter.refTable K reads sm st).map (·.key) := by
     unfold Filter.removeCensoredExts; simp [List.map_map, Function.comp_def]
   rw [← this]
+  exact hp.map _
+
+/-- **C01 (`compress_kmers_no_exts`, unstranded).** For every list of pairwise distinct canonical k-mers of length K with
+    payloads and every symmetric join, the entry point that discovers the extensions itself (by membership of the canonical
+    neighbour) never panics and partitions exactly the given k-mers into nodes — its table is well-formed and reciprocal by
+    construction (`noExts_table_ok`), in whatever order the hash map lists it. -/
+theorem C01_no_exts (K : Nat) (hK : 1 ≤ K) (kd : List (Seq × D)) (hlen : ∀ p ∈ kd, p.1.length = K)
+    (hnd : (kd.map (·.1)).Nodup) (hcan : ∀ p ∈ kd, ¬ rc p.1 < p.1) (join : D → D → Bool) (hj : ∀ a b, join a b = join b a)
+    (reduce : D → D → D) (T : Table D) (hp : T.Perm (noExtsTable kd)) :
+    ∃ out, compressKmersC T false join reduce = some out ∧
+      (out.flatMap fun x => (windowsOf K x.1.seq).map (fun w => (canonOf false w).1)).Perm (kd.map (·.1)) ∧
+      ∀ x ∈ out, K ≤ x.1.seq.length := by
+  obtain ⟨wf0, hes0⟩ := noExts_table_ok K hK kd hlen hnd hcan
+  have wf := Filter.wf_perm false _ T K hp wf0
+  have hes := (Filter.extSym2_perm false _ T K hp wf0 hes0).toExtSym
+  obtain ⟨out, h1, h2, h3⟩ := compressKmersC_partition reduce wf hes hj
+  refine ⟨out, h1, h2.trans ?_, h3⟩
+  rw [← noExts_keys kd]
   exact hp.map _
 
 /-- the hypotheses are satisfiable: a three-k-mer chain ACG → CGT (palindrome-free, stranded) -/
